@@ -613,7 +613,14 @@ def load_known(prop):
     if not os.path.exists(p):
         return []
     data = json.load(open(p))
-    return [e for e in data.get("findings", []) if e.get("property") == prop and e.get("status") == "known"]
+    out = [e for e in data.get("findings", []) if e.get("property") == prop and e.get("status") == "known"]
+    # also the property's own meta file (known_findings.json is assembled from these by tools/mkmanifest.py)
+    mp = os.path.join(VERIF, "props", prop.lower() + ".meta.json")
+    if os.path.exists(mp):
+        for e in json.load(open(mp)).get("known_findings", []):
+            if e.get("status", "known") == "known" and not any(k.get("id") == e.get("id") for k in out):
+                out.append(dict(e, property=prop))
+    return out
 
 
 # ---------------------------------------------------------------- misc
